@@ -76,8 +76,8 @@ func runC28(c *core.Ctx) {
 				n++
 				if st, ok := w.Instr.(*ssa.Store); ok {
 					okc := false
-					if call, ok := core.Unwrap(st.Val).(*ssa.Call); ok && core.CalleeName(&call.Call) == "helpers.StringToBigInt" {
-						if k, ok := call.Call.Args[0].(*ssa.Const); ok && k.Value != nil && strings.Contains(k.Value.ExactString(), "10000000000000000000000000000") {
+					if call, ok := core.Unwrap(st.Val).(*ssa.Call); ok && core.CalleeName(core.NormCall(&call.Call)) == "helpers.StringToBigInt" {
+						if k, ok := core.NormCall(&call.Call).Args[0].(*ssa.Const); ok && k.Value != nil && strings.Contains(k.Value.ExactString(), "10000000000000000000000000000") {
 							okc = true
 						}
 					}
@@ -139,8 +139,8 @@ func checkBeginReward(c *core.Ctx, fn *ssa.Function) {
 		c.Bad("C28.cap", "BeginBlock/branches", fn.Pos(), "BeginBlock no longer has one SetReward(new) and one SetReward(0, 0)")
 		return
 	}
-	c.Check(capFact(c.FactsAt(upd, 0), true) && capFact(c.FactsAt(setNew.Instr, 0), true), "C28.cap", "BeginBlock/reprice-under-cap", setNew.Pos(), "re-pricing and SetReward(new) only while Emission() < TotalEmissionBig()", "the reward can be re-priced although the emission cap is reached")
-	c.Check(capFact(c.FactsAt(setZero.Instr, 0), false), "C28.cap", "BeginBlock/zero-at-cap", setZero.Pos(), "at or above the cap the reward is set to (0, 0)", "the reward is not zeroed once the emission cap is reached")
+	c.Check(capFact(c.FactsAt(upd, 1), true) && capFact(c.FactsAt(setNew.Instr, 1), true), "C28.cap", "BeginBlock/reprice-under-cap", setNew.Pos(), "re-pricing and SetReward(new) only while Emission() < TotalEmissionBig()", "the reward can be re-priced although the emission cap is reached")
+	c.Check(capFact(c.FactsAt(setZero.Instr, 1), false), "C28.cap", "BeginBlock/zero-at-cap", setZero.Pos(), "at or above the cap the reward is set to (0, 0)", "the reward is not zeroed once the emission cap is reached")
 	// the values stored are the re-pricing results
 	c.Check(extractOf(setNew.Arg(0), upd.(ssa.Value), 0) && extractOf(setNew.Arg(1), upd.(ssa.Value), 1), "C28.cap", "BeginBlock/new-values", setNew.Pos(), "SetReward receives exactly the two results of the re-pricing function", "SetReward(new) is not fed with the re-pricing results")
 	// the re-pricing function is one of AppDB.UpdatePrice*
@@ -229,19 +229,19 @@ func isHeaderTime(c *core.Ctx, v ssa.Value) bool {
 
 func isHeaderHour(c *core.Ctx, v ssa.Value) bool {
 	call, ok := core.Unwrap(v).(*ssa.Call)
-	return ok && core.CalleeName(&call.Call) == "(time.Time).Hour" && isHeaderTime(c, call.Call.Args[0])
+	return ok && core.CalleeName(core.NormCall(&call.Call)) == "(time.Time).Hour" && isHeaderTime(c, core.NormCall(&call.Call).Args[0])
 }
 
 func isHeaderSub(c *core.Ctx, v ssa.Value) bool {
 	call, ok := core.Unwrap(v).(*ssa.Call)
-	if !ok || core.CalleeName(&call.Call) != "(time.Time).Sub" {
+	if !ok || core.CalleeName(core.NormCall(&call.Call)) != "(time.Time).Sub" {
 		return false
 	}
-	if !isHeaderTime(c, call.Call.Args[0]) {
+	if !isHeaderTime(c, core.NormCall(&call.Call).Args[0]) {
 		return false
 	}
 	// the subtrahend is the first result of GetPrice()
-	for _, o := range core.Origins(call.Call.Args[1]) {
+	for _, o := range core.Origins(core.NormCall(&call.Call).Args[1]) {
 		if ex, ok := o.(*ssa.Extract); ok && ex.Index == 0 {
 			if cc, ok := ex.Tuple.(*ssa.Call); ok && methodNameOfCall(cc) == "GetPrice" {
 				return true
@@ -267,7 +267,7 @@ func checkEndMint(c *core.Ctx, fn *ssa.Function) {
 	if core.Dominates(second.Instr, first.Instr) {
 		first, second = second, first
 	}
-	c.Check(capFact(c.FactsAt(first.Instr, 0), true), "C28.cap", "EndBlock/reward-under-cap", first.Pos(), "the block reward is read only while Emission() < TotalEmissionBig()", "a block reward is minted although the emission cap is reached")
+	c.Check(capFact(c.FactsAt(first.Instr, 1), true), "C28.cap", "EndBlock/reward-under-cap", first.Pos(), "the block reward is read only while Emission() < TotalEmissionBig()", "a block reward is minted although the emission cap is reached")
 	// the second read (and the emission advance) happens only when the flag set on the cap branch is set
 	var setEm *core.Site
 	for _, s := range core.Sites(fn) {
@@ -297,7 +297,7 @@ func checkEndMint(c *core.Ctx, fn *ssa.Function) {
 				continue
 			}
 			pred := ph.Block().Preds[i]
-			if capFact(c.FactsAt(pred.Instrs[len(pred.Instrs)-1], 0), true) || (len(pred.Instrs) > 0 && capEdgeBlock(c, pred)) {
+			if capFact(c.FactsAt(pred.Instrs[len(pred.Instrs)-1], 1), true) || (len(pred.Instrs) > 0 && capEdgeBlock(c, pred)) {
 				capEdge = true
 			} else {
 				okEdges = false
@@ -321,7 +321,7 @@ func checkEndMint(c *core.Ctx, fn *ssa.Function) {
 	var burn *core.Site
 	for _, s := range core.Sites(fn) {
 		if methodName(s) == "AddBalance" && core.ReachFrom(second.Block(), nil)[s.Block()] {
-			if call, ok := core.Unwrap(s.Arg(2)).(*ssa.Call); ok && core.CalleeName(&call.Call) == "(*math/big.Int).Sub" {
+			if call, ok := core.Unwrap(s.Arg(2)).(*ssa.Call); ok && core.CalleeName(core.NormCall(&call.Call)) == "(*math/big.Int).Sub" {
 				burn = s
 			}
 		}
@@ -350,12 +350,12 @@ func checkEndMint(c *core.Ctx, fn *ssa.Function) {
 	}
 	positive := false
 	for _, f := range c.FactsAt(burn.Instr, 0) {
-		if cf, ok := f.AsCall(); ok && cf.MethodName() == "Sign" && core.Unwrap(cf.Call.Call.Args[0]) == ssa.Value(diff) && cf.Op == token.EQL && cf.Const == 1 && f.Truth {
+		if cf, ok := f.AsCall(); ok && cf.MethodName() == "Sign" && core.Unwrap(core.NormCall(&cf.Call.Call).Args[0]) == ssa.Value(diff) && cf.Op == token.EQL && cf.Const == 1 && f.Truth {
 			positive = true
 		}
 	}
-	c.Check(isRFB(diff.Call.Args[1]) && isValReward(diff.Call.Args[2]) && zeroAddr && coinZero && positive, "C28.mint", "EndBlock/burn", burn.Pos(),
-		"AddBalance(zero address, base coin, perBlock − validatorsReward) only when that difference is positive", fmt.Sprintf("the burn of the withheld reward changed (minuend per-block:%v subtrahend validators' reward:%v zero address:%v base coin:%v positive gate:%v)", isRFB(diff.Call.Args[1]), isValReward(diff.Call.Args[2]), zeroAddr, coinZero, positive))
+	c.Check(isRFB(core.NormCall(&diff.Call).Args[1]) && isValReward(core.NormCall(&diff.Call).Args[2]) && zeroAddr && coinZero && positive, "C28.mint", "EndBlock/burn", burn.Pos(),
+		"AddBalance(zero address, base coin, perBlock − validatorsReward) only when that difference is positive", fmt.Sprintf("the burn of the withheld reward changed (minuend per-block:%v subtrahend validators' reward:%v zero address:%v base coin:%v positive gate:%v)", isRFB(core.NormCall(&diff.Call).Args[1]), isValReward(core.NormCall(&diff.Call).Args[2]), zeroAddr, coinZero, positive))
 	// reward += diff ; AddCoinVolume(base, reward)
 	added := false
 	for _, s := range core.Sites(fn) {
@@ -414,7 +414,7 @@ func capEdgeBlock(c *core.Ctx, b *ssa.BasicBlock) bool {
 	if len(b.Instrs) == 0 {
 		return false
 	}
-	return capFact(c.FactsAt(b.Instrs[0], 0), true)
+	return capFact(c.FactsAt(b.Instrs[0], 1), true)
 }
 
 // checkPercentRounding — "−10 % or worse (rounded down to a whole percent)": in the live price
@@ -434,10 +434,10 @@ func checkPercentRounding(c *core.Ctx, rule string) {
 		}
 		// compared with big.NewInt(-10)
 		arg, ok := core.Unwrap(s.Common.Args[1]).(*ssa.Call)
-		if !ok || core.CalleeName(&arg.Call) != "math/big.NewInt" {
+		if !ok || core.CalleeName(core.NormCall(&arg.Call)) != "math/big.NewInt" {
 			continue
 		}
-		if k, ok := core.ConstInt(arg.Call.Args[0]); !ok || k != -10 {
+		if k, ok := core.ConstInt(core.NormCall(&arg.Call).Args[0]); !ok || k != -10 {
 			continue
 		}
 		n++
@@ -458,7 +458,7 @@ func checkPercentRounding(c *core.Ctx, rule string) {
 				}
 				return
 			}
-			name := core.CalleeName(&call.Call)
+			name := core.CalleeName(core.NormCall(&call.Call))
 			how = append(how, name)
 			if name != "(*math/big.Int).Div" {
 				good = false
@@ -534,7 +534,7 @@ func checkRewardStore(c *core.Ctx, rule string) {
 				continue
 			}
 			call, ok := core.Unwrap(bin.X).(*ssa.Call)
-			if !ok || core.CalleeName(&call.Call) != "(*math/big.Int).Sign" || !params[core.Unwrap(call.Call.Args[0])] {
+			if !ok || core.CalleeName(core.NormCall(&call.Call)) != "(*math/big.Int).Sign" || !params[core.Unwrap(core.NormCall(&call.Call).Args[0])] {
 				continue
 			}
 			if k, ok := core.ConstInt(bin.Y); ok && k == 0 && ((bin.Op == token.EQL && g.PassTrue) || (bin.Op == token.NEQ && !g.PassTrue)) {
